@@ -84,6 +84,8 @@ def cases(rng, tier):
         yield hist_case(seqs, calls, "history")
     for _ in range(60 if tier == "quick" else 600):
         yield phos_history(rng)
+    for _ in range(60 if tier == "quick" else 600):
+        yield palette_history(rng)
 
 
 def phos_history(rng):
@@ -102,6 +104,24 @@ def phos_history(rng):
     calls = ["phosdist"] + calls + ["getphos", "phosdist", "phosseq", "kappaphos"]
     lines = ["new 1 " + s, "setphos 1 " + " ".join(map(str, sites))] + ["o 1 " + q for q in calls]
     return Case(lines, {"kind": "history-with-phosphosites"}, nontrivial=True)
+
+
+def palette_history(rng):
+    """1-2 live objects, a custom palette installed on one of them, then read-only calls on both with renderings in between:
+    every rendering is compared with the model (one palette per object) and repeated renderings of one object must agree"""
+    from .C20 import rand_update, dtok
+    s = gen.rand_seq(rng, rng.choice(gen.KINDS), rng.randint(6, 30))
+    t = gen.rand_seq(rng, rng.choice(gen.KINDS), rng.randint(6, 30))
+    d, _ = rand_update(rng)
+    while not all(a in d and d[a] for a in gen.AAS) or any(v is None for v in d.values()):
+        d, _ = rand_update(rng)
+    lines = ["new 1 " + s, "new 2 " + t, "setpal 1 " + dtok(d), "o 1 html", "o 2 html"]
+    qs = ["kappa", "omega", "dmax", "kappaX s000045,s000044 s00004b,s000052", "delta", "scd", "region", "linNCPR 2", "reduce 5 -", "phosseq", "strof"]
+    for _ in range(rng.randint(2, 6)):
+        lines.append("o %d %s" % (rng.choice([1, 2]), rng.choice(qs)))
+        lines.append("o %d html" % rng.choice([1, 2]))
+    lines += ["o 1 html", "o 2 html"]
+    return Case(lines, {"kind": "history-with-custom-palette"}, nontrivial=True)
 
 
 def same(a, b):
@@ -144,7 +164,7 @@ def judge(case, reals, gens, specs):
             if not same(live, fresh):
                 out.append(("violation", i, "HISTORY-DEPENDENT: %s -> %s but a fresh object (%s) -> %s ; history: %s" % (
                     case.block[i], str(live)[:120], case.block[i + 1], str(fresh)[:120], " | ".join(hist)[:300])))
-    if case.tags.get("kind") == "history-with-phosphosites":
+    if case.tags.get("kind") in ("history-with-phosphosites", "history-with-custom-palette"):
         first = {}
         for i, l in enumerate(case.block):
             if l.startswith("o "):
